@@ -213,7 +213,7 @@ V: List[Tuple[str, str, List[str], str, str, str, List[str]]] = [
     ("benign-c-comment", "benign", ["C03", "C06", "C14"], CC, "        // c is the number of bits to copy in this iteration.\n        int c = 0;", "        // chunk size of this iteration\n        // (set on every path below)\n        int c = 0;", []),
     ("benign-c-copier-threshold-form", "benign", ["C03", "C07", "C14"], CC, "if (bits >= 32) {", "if (bits > 31) {", []),
     ("benign-local-rename", "benign", ["C01", "C02"], BP, "    b = ctx.s[int(ctx.i / 8)]\n    shift = (ctx.i % 8) - (j % 8)\n    mask = get_mask(j % 8, c)\n    # Shift and then take mask to get bits to copy.\n    d = smart_shift(b, shift) & mask", "    byte_ = ctx.s[int(ctx.i / 8)]\n    delta = (ctx.i % 8) - (j % 8)\n    m = get_mask(j % 8, c)\n    d = smart_shift(byte_, delta) & m", []),
-    ("benign-be-no-memset", "benign", ["C04", "C06"], PC + "renderer/impls/c/renderer_c.py", '            self.push("memset(m, 0, sizeof(*m));", indent=4)\n', "", []),
+    ("be-decoder-no-memset", "break", ["C06"], PC + "renderer/impls/c/renderer_c.py", '            self.push("memset(m, 0, sizeof(*m));", indent=4)\n', "", ["F5"]),
     ("benign-sorted-attrgetter", "benign", ["C01", "C12"], PC + "_ast.py", "return sorted(self.fields(), key=lambda field: field.number)", "return sorted(self.fields(), key=lambda f: (f.number, 0))", []),
     ("benign-go-min-le", "benign", ["C19", "C14"], GO, "\tif a < b {\n\t\treturn a\n\n\t}\n\treturn b", "\tif a <= b {\n\t\treturn a\n\t}\n\treturn b", []),
 ]
